@@ -48,21 +48,39 @@ def _files():
                      G.seg([(A, ['FULL', 'String', 2, 3]), (B, ['FULL', i32, 3])], chunks=1)]
     fs['nometa'] = [G.seg([(B, ['FULL', i16, 3]), (A, ['FULL', i32, 2])], chunks=1),
                     G.seg([], meta=False, chunks=2), G.seg([], meta=False, chunks=1)]
+    # chunk starts that are not multiples of the chunk length (3, then 2+2), so "same chunk" cannot be decided by division
+    fs['unaligned'] = [G.seg([(A, ['FULL', i32, 3]), (B, ['FULL', i16, 2])], chunks=1),
+                       G.seg([(A, ['FULL', i32, 2]), (B, ['FULL', i16, 3])], chunks=2)]
     return fs
 
 
+def _long_file():
+    """130 segments; a and b have the same per-segment counts for the first 110 segments and differ afterwards
+    (the per-channel offset index is de-duplicated by comparing arrays block-wise)"""
+    i32, i16 = 'Int32', 'Int16'
+    segs = [G.seg([(A, ['FULL', i32, 2]), (B, ['FULL', i32, 2])], chunks=1)]
+    segs += [G.seg([], meta=False, chunks=1) for _ in range(109)]
+    segs.append(G.seg([(B, ['FULL', i32, 3])], newlist=False, chunks=1))
+    segs += [G.seg([], meta=False, chunks=1) for _ in range(19)]
+    return segs
+
+
 FILES = _files()
+LONG = {'long': _long_file()}
 _DATA = {}
 
 
 def file_bytes(name, seed):
     k = (name, seed)
     if k not in _DATA:
-        _DATA[k] = G.encode(FILES[name], seed=seed)
+        _DATA[k] = G.encode(FILES[name] if name in FILES else LONG[name], seed=seed)
     return _DATA[k]
 
 
 def alphabet(la, lb):
+    if la > 100:   # the long file: a short alphabet aimed at the tail, where the two channels' segment shapes differ
+        return [['idx', 'a', 5], ['read', 'a', la - 4, 3], ['idx', 'b', lb - 1], ['idx', 'b', lb - 40], ['read', 'b', lb - 30, 10],
+                ['slice', 'b', lb - 12, lb, 3], ['idx', 'b', 3], ['newgen', 'a'], ['next', 'g', 0]]
     ops = [['idx', 'a', 0], ['idx', 'a', 1], ['idx', 'a', min(la - 1, 2 + la // 2)], ['idx', 'a', la - 1],
            ['idx', 'a', -1], ['idx', 'a', -3], ['idx', 'b', 0], ['idx', 'b', lb - 1], ['idx', 'b', -2],
            ['slice', 'a', 1, min(5, la), None], ['slice', 'b', 2, min(7, lb), 2],
@@ -310,6 +328,9 @@ def run(ctx):
             for o2 in alpha:
                 items.append((n, seed, [o1, o2], depth))
         items.append((n, seed, [], 1))
+    for n in LONG:
+        alpha = expectations(n, seed)[0]
+        items += [(n, seed, [o1], 3) for o1 in alpha]
     m = merge(ctx.map(_tree_worker, items, chunksize=8))
     # BFS with state keys
     bfs_depth = 5 if ctx.tier == 'quick' else 7
